@@ -490,6 +490,33 @@ func Send[T any](ch chan<- T, v T) {
 	}
 }
 
+// WaitGroup replaces sync.WaitGroup in the instrumented copy: Wait polls a shadow counter and hands the baton on while it is
+// not zero (those it waits for may be other tasks), then calls the real Wait, which returns at once and gives the race detector
+// the real happens-before edges.
+type WaitGroup struct {
+	wg sync.WaitGroup
+	n  int64
+}
+
+func (w *WaitGroup) Add(d int) {
+	atomic.AddInt64(&w.n, int64(d))
+	w.wg.Add(d)
+}
+
+func (w *WaitGroup) Done() {
+	atomic.AddInt64(&w.n, -1)
+	w.wg.Done()
+}
+
+func (w *WaitGroup) Wait() {
+	for atomic.LoadInt64(&w.n) > 0 {
+		if h := PollHook; h == nil || !h() {
+			break
+		}
+	}
+	w.wg.Wait()
+}
+
 // PointHook is called at every preemption point while a simulation is running.
 var PointHook func()
 
